@@ -144,4 +144,281 @@ theorem reset_refines (cfg : Cfg) (e : EL) (p : EditSpec.PL) (c : Nat) (fresh : 
     rw [remaining_zero, hsc.2, List.drop_zero]
     exact h.hosts
 
+/-! ### `hostlist_shift` with the iterator live -/
+theorem remaining_succ (a : HRange) (L : List HRange) (i k : Nat) :
+    remaining (a :: L) (i + 1) k = remaining L i k := by
+  unfold remaining
+  simp
+
+theorem hrAt_succ (o : RObj) (rest : List RObj) (nh nh' : Int) (nx nx' : Nat) (its its' : List (Nat × ItSt)) (i : Nat) :
+    EL.hrAt ⟨o :: rest, nh, nx, its⟩ ((i + 1 : Nat) : Int) = EL.hrAt ⟨rest, nh', nx', its'⟩ (i : Int) := by
+  rw [hrAt_nat, hrAt_nat]
+  simp
+
+/-- the iterator after `hostlist_shift`, record 0 keeps hosts -/
+theorem shiftE_keep (cfg : Cfg) (o : RObj) (rest : List RObj) (nh : Int) (nx : Nat) (it : ItSt) (x : Str) (r' : HRange)
+    (hpos : nh > 0) (hsh : hostrangeShift o.r = (some x, r')) (hne : r'.empty = false) :
+    shiftE cfg ⟨o :: rest, nh, nx, [(0, it)]⟩ =
+      .ok (some x, ⟨{ o with r := r' } :: rest, nh - 1, nx,
+        [(0, if it.idx = 0 ∧ it.depth ≥ 0 then { it with depth := it.depth - 1 } else it)]⟩) := by
+  unfold shiftE
+  simp only [hpos, ↓reduceIte, hsh, hne, Bool.false_eq_true, shiftIterators, List.map_cons, List.map_nil]
+  congr 4
+  by_cases h1 : it.idx = 0
+  · by_cases h2 : it.depth ≥ 0
+    · have h3 : it.depth > -1 := by omega
+      simp [h1, h2, h3]
+    · simp [h1, h2]
+  · simp [h1]
+
+/-- the iterator after `hostlist_shift`, record 0 goes away (repaired `hostlist_delete_range`) -/
+theorem shiftE_gone (cfg : Cfg) (hfix : cfg.fixRemoveDepth = true) (o : RObj) (rest : List RObj) (nh : Int) (nx : Nat)
+    (it : ItSt) (x : Str) (r' : HRange) (hpos : nh > 0) (hsh : hostrangeShift o.r = (some x, r')) (he : r'.empty = true) :
+    shiftE cfg ⟨o :: rest, nh, nx, [(0, it)]⟩ =
+      .ok (some x, ⟨rest, nh - 1, nx,
+        [(0, if it.idx > 0 then { it with idx := it.idx - 1, hr := EL.hrAt ⟨rest, nh - 1, nx, [(0, it)]⟩ (it.idx - 1) }
+             else if it.idx = 0 then EL.resetIt ⟨rest, nh - 1, nx, [(0, it)]⟩ else it)]⟩) := by
+  unfold shiftE
+  simp only [hpos, ↓reduceIte, hsh, he, deleteRange, hfix, Bool.not_true, Bool.false_eq_true, List.eraseIdx_zero,
+    List.tail_cons, List.map_cons, List.map_nil]
+  congr 4
+  by_cases h1 : it.idx > 0
+  · simp [h1]
+  · by_cases h2 : it.idx = 0
+    · simp [h2]
+    · simp [h1, h2]
+
+theorem hostrangeShift_fields {r r' : HRange} {x : Str} (h : hostrangeShift r = (some x, r')) :
+    r'.width = r.width ∧ r'.hi = r.hi ∧ r'.single = r.single := by
+  unfold hostrangeShift at h
+  split at h
+  · simp only [Prod.mk.injEq] at h; rw [← h.2]; exact ⟨rfl, rfl, rfl⟩
+  · split at h
+    · simp only [Prod.mk.injEq] at h; rw [← h.2]; exact ⟨rfl, rfl, rfl⟩
+    · simp at h
+
+theorem remaining_length_le (L : List HRange) (i k : Nat) : (remaining L i k).length ≤ (hostsL L).length := by
+  cases hr : L[i]? with
+  | none => rw [remaining_none hr]; simp
+  | some r =>
+    have := congrArg List.length (hosts_cut L i k r hr)
+    simp only [List.length_append] at this
+    omega
+
+/-- a cursor is determined by what is left -/
+theorem cur_of_drop (names : List Str) (c : Nat) (hle : c ≤ names.length) (rem : List Str) (h : names.drop c = rem) :
+    c = names.length - rem.length := by
+  have := congrArg List.length h
+  simp only [List.length_drop] at this
+  omega
+
+theorem coh_mk (rs : List RObj) (nh : Int) (nx : Nat) (i k : Nat) (idx depth : Int) (hr : Option Nat)
+    (h1 : idx = (i : Int)) (h2 : depth = (k : Int) - 1) (h3 : hr = (rs[i]?).map (·.id)) :
+    Coh ⟨rs, nh, nx, [(0, ⟨idx, depth, hr⟩)]⟩ i k := by
+  subst h1 h2 h3
+  unfold Coh
+  simp only
+  rw [hrAt_nat]
+
+/-- SHIFT: `hostlist_shift` with the iterator live answers the first name, the list loses it, and the
+    iterator still stands in front of what it had left (`ShiftFits`: numbers fit the buffer
+    `hostrange_shift` allocates) -/
+theorem shift_refines (cfg : Cfg) (hfix : cfg.fixRemoveDepth = true) (e : EL) (p : EditSpec.PL) (c : Nat) (fresh : Bool)
+    (h : Ref cfg e p c fresh) (hf : ∀ r ∈ e.ranges, r.ShiftFits) :
+    ∃ e', shiftE cfg e = .ok ((EditSpec.shift p).1, e') ∧
+      Ref cfg e' (EditSpec.shift p).2 (if p.names = [] then c else c - 1) false := by
+  obtain ⟨i, k, hc, hrem, _⟩ := h.pos
+  obtain ⟨rs, nh, nx, its⟩ := e
+  have hits : its = [(0, ⟨(i : Int), (k : Int) - 1, EL.hrAt ⟨rs, nh, nx, its⟩ (i : Int)⟩)] := hc
+  cases rs with
+  | nil =>
+    have hn0 : p.names = [] := by rw [← h.hosts]; rfl
+    have hnh : nh = 0 := by have := h.good.2; simpa [EL.hosts, EL.ranges] using this
+    refine ⟨⟨[], nh, nx, its⟩, ?_, ?_⟩
+    · unfold shiftE EditSpec.shift
+      simp [hnh, hn0]
+    · have : EditSpec.shift p = (none, p) := by unfold EditSpec.shift; simp [hn0]
+      rw [this]
+      simp only [hn0, ↓reduceIte]
+      exact ⟨h.ids, h.good, h.full, h.hosts, h.cur, h.le, i, k, hc, hrem, by intro hf'; simp at hf'⟩
+  | cons o rest =>
+    have hog : o.r.Good := h.good.1 o.r (by simp [EL.ranges])
+    have hof : o.r.ShiftFits := hf o.r (by simp [EL.ranges])
+    obtain ⟨x, r', hsh, hcase⟩ := hostrangeShift_spec hog hof
+    obtain ⟨fw, fh, fs⟩ := hostrangeShift_fields hsh
+    have hnames : p.names = o.r.hosts ++ hostsL (rest.map (·.r)) := by
+      rw [← h.hosts]; simp [EL.hosts, EL.ranges, hostsL]
+    have hranges : EL.ranges ⟨o :: rest, nh, nx, its⟩ = o.r :: rest.map (·.r) := by simp [EL.ranges]
+    have hpos : nh > 0 := by
+      have := h.good.2
+      have hp := hog.hosts_pos
+      simp only [EL.hosts, EL.ranges, List.map_cons, List.flatMap_cons, List.length_append] at this
+      omega
+    have hnd : ((o :: rest).map (·.id)).Nodup ∧ ∀ y ∈ o :: rest, y.id < nx := h.ids
+    rw [hranges] at hrem
+    -- the first name and the plain list's answer
+    have hxhead : ∃ tl, p.names = x :: tl ∧ EditSpec.shift p = (some x, p.delPos 0) := by
+      rcases hcase with ⟨_, hx⟩ | ⟨_, _, _, hx⟩
+      · refine ⟨hostsL (rest.map (·.r)), by rw [hnames, hx]; rfl, ?_⟩
+        unfold EditSpec.shift; rw [hnames, hx]; rfl
+      · refine ⟨r'.hosts ++ hostsL (rest.map (·.r)), by rw [hnames, hx]; rfl, ?_⟩
+        unfold EditSpec.shift; rw [hnames, hx]; rfl
+    obtain ⟨tl, hntl, hspec⟩ := hxhead
+    have hne : p.names ≠ [] := by rw [hntl]; simp
+    rw [hspec]
+    simp only [hne, ↓reduceIte]
+    have hdn : (p.delPos 0).names = tl := by
+      show p.names.eraseIdx 0 = tl; rw [hntl]; rfl
+    have hdc : (p.delPos 0).cur = [(0, c - 1)] := by
+      unfold EditSpec.PL.delPos; rw [h.cur]
+      by_cases hc0 : c > 0
+      · simp [hc0]
+      · have : c = 0 := by omega
+        simp [this]
+    have hlen : p.names.length = tl.length + 1 := by rw [hntl]; rfl
+    have hcle : c - 1 ≤ tl.length := by have := h.le; omega
+    -- whenever something in front of the cursor exists, the cursor is ≥ 1 and what is left stays
+    have hkeep : ∀ rem : List Str, p.names.drop c = rem → rem.length ≤ tl.length → tl.drop (c - 1) = rem := by
+      intro rem hr hl
+      have hc' := cur_of_drop p.names c h.le rem hr
+      have hc1 : 1 ≤ c := by omega
+      rw [← hr, hntl]
+      have : c = (c - 1) + 1 := by omega
+      conv => rhs; rw [this]
+      rfl
+    rw [hits]
+    rcases hcase with ⟨he, hx⟩ | ⟨hnee, hg', hf', hx⟩
+    · -- record 0 goes away
+      rw [shiftE_gone cfg hfix o rest nh nx _ x r' hpos hsh he]
+      have htl : tl = hostsL (rest.map (·.r)) := by
+        have := hnames; rw [hntl, hx] at this; simpa using this
+      have hids' := ids_erase [] rest o nx (by simpa using hnd)
+      have hgood' : EL.Good ⟨rest, nh - 1, nx, []⟩ := by
+        refine ⟨fun q hq => h.good.1 q (by simp [EL.ranges] at hq ⊢; exact Or.inr hq), ?_⟩
+        have := h.good.2
+        simp only [EL.hosts, EL.ranges, List.map_cons, List.flatMap_cons, List.length_append, hx, List.length_singleton] at this ⊢
+        omega
+      cases i with
+      | zero =>
+        simp only [show ¬ (((0 : Nat) : Int) > 0) from by omega, show (((0 : Nat) : Int) = 0) from rfl, ↓reduceIte]
+        refine ⟨_, rfl, ⟨by simpa [EL.IdsOk] using hids', ⟨hgood'.1, hgood'.2⟩,
+          fun q hq => h.full q (by simp [EL.ranges] at hq ⊢; exact Or.inr hq),
+          by rw [hdn, htl]; rfl, hdc, by rw [hdn]; exact hcle, 0, 0, ?_, ?_, by intro hf'; simp at hf'⟩⟩
+        · exact coh_mk rest (nh - 1) nx 0 0 _ _ _ rfl (by omega) (by
+            show EL.hrAt _ ((0 : Nat) : Int) = _
+            rw [hrAt_nat])
+        · show remaining (rest.map (·.r)) 0 0 = _
+          rw [remaining_zero, hdn]
+          -- what was left: x (if not yet handed out) and the rest
+          have hr0 : remaining (o.r :: rest.map (·.r)) 0 k = o.r.hosts.drop k ++ hostsL (rest.map (·.r)) :=
+            remaining_mid [] o.r _ k
+          rw [hr0, hx] at hrem
+          by_cases hk0 : k = 0
+          · subst hk0
+            have hc0 := cur_of_drop p.names c h.le _ hrem.symm
+            simp only [List.drop_zero, List.length_append, List.length_singleton] at hc0
+            have : c = 0 := by rw [hlen, htl] at hc0; omega
+            subst this
+            simp [htl, hostsL]
+          · have hdk : ([x] : List Str).drop k = [] := List.drop_eq_nil_iff.mpr (by simp; omega)
+            rw [hdk, List.nil_append] at hrem
+            have := hkeep _ hrem.symm (by rw [htl]; exact Nat.le_refl _)
+            rw [this]; rfl
+      | succ i' =>
+        have hgt : (((i' + 1 : Nat) : Int) > 0) := by omega
+        simp only [hgt, ↓reduceIte]
+        refine ⟨_, rfl, ⟨by simpa [EL.IdsOk] using hids', ⟨hgood'.1, hgood'.2⟩,
+          fun q hq => h.full q (by simp [EL.ranges] at hq ⊢; exact Or.inr hq),
+          by rw [hdn, htl]; rfl, hdc, by rw [hdn]; exact hcle, i', k, ?_, ?_, by intro hf'; simp at hf'⟩⟩
+        · exact coh_mk rest (nh - 1) nx i' k _ _ _ (by omega) rfl (by
+            have : (((i' + 1 : Nat) : Int) - 1) = (i' : Int) := by omega
+            rw [this, hrAt_nat])
+        · show remaining (rest.map (·.r)) i' k = _
+          rw [remaining_succ] at hrem
+          rw [hdn]
+          exact (hkeep _ hrem.symm (by rw [htl]; exact remaining_length_le _ _ _)).symm
+    · -- record 0 keeps hosts
+      rw [shiftE_keep cfg o rest nh nx _ x r' hpos hsh hnee]
+      have htl : tl = r'.hosts ++ hostsL (rest.map (·.r)) := by
+        have := hnames; rw [hntl, hx] at this; simpa using this
+      have hids' := ids_shrink [] rest o r' nx (by simpa using hnd)
+      have hgoodr : ∀ q ∈ r' :: rest.map (·.r), q.Good := by
+        intro q hq
+        rcases List.mem_cons.mp hq with rfl | hq
+        · exact hg'
+        · exact h.good.1 q (by simp [EL.ranges] at hq ⊢; exact Or.inr hq)
+      have hfull' : ∀ q ∈ r' :: rest.map (·.r), q.PrintsFull cfg := by
+        intro q hq
+        rcases List.mem_cons.mp hq with rfl | hq
+        · exact narrow_of_le (h.full o.r (by simp [EL.ranges])) fw (by omega) fs
+        · exact h.full q (by simp [EL.ranges] at hq ⊢; exact Or.inr hq)
+      have hnh' : (nh - 1 : Int) = ((r'.hosts ++ hostsL (rest.map (·.r))).length : Int) := by
+        have := h.good.2
+        simp only [EL.hosts, EL.ranges, List.map_cons, List.flatMap_cons, List.length_append, hx, List.length_cons] at this
+        simp only [List.length_append, hostsL]
+        omega
+      have hr0 : ∀ kk, remaining (o.r :: rest.map (·.r)) 0 kk = o.r.hosts.drop kk ++ hostsL (rest.map (·.r)) :=
+        fun kk => remaining_mid [] o.r _ kk
+      have hr0' : ∀ kk, remaining (r' :: rest.map (·.r)) 0 kk = r'.hosts.drop kk ++ hostsL (rest.map (·.r)) :=
+        fun kk => remaining_mid [] r' _ kk
+      have hbase : ∀ (it : ItSt),
+          EL.IdsOk ⟨{ o with r := r' } :: rest, nh - 1, nx, [(0, it)]⟩ ∧
+          EL.Good ⟨{ o with r := r' } :: rest, nh - 1, nx, [(0, it)]⟩ ∧
+          (∀ q ∈ EL.ranges ⟨{ o with r := r' } :: rest, nh - 1, nx, [(0, it)]⟩, q.PrintsFull cfg) ∧
+          EL.hosts ⟨{ o with r := r' } :: rest, nh - 1, nx, [(0, it)]⟩ = (p.delPos 0).names := by
+        intro it
+        refine ⟨by simpa [EL.IdsOk] using hids', ⟨by simpa [EL.ranges] using hgoodr, ?_⟩,
+          by simpa [EL.ranges] using hfull', ?_⟩
+        · show (nh - 1 : Int) = _
+          rw [hnh']; simp [EL.hosts, EL.ranges, hostsL]
+        · rw [hdn, htl]; simp [EL.hosts, EL.ranges, hostsL]
+      cases i with
+      | zero =>
+        by_cases hk0 : k = 0
+        · subst hk0
+          have hcond : ¬ ((((0 : Nat) : Int) = 0) ∧ (((0 : Nat) : Int) - 1 ≥ 0)) := by omega
+          simp only [hcond, ↓reduceIte]
+          obtain ⟨b1, b2, b3, b4⟩ := hbase ⟨((0 : Nat) : Int), ((0 : Nat) : Int) - 1, EL.hrAt ⟨o :: rest, nh, nx, its⟩ ((0 : Nat) : Int)⟩
+          refine ⟨_, rfl, ⟨b1, b2, b3, b4, hdc, by rw [hdn]; exact hcle, 0, 0, ?_, ?_, by intro hf'; simp at hf'⟩⟩
+          · exact coh_mk _ (nh - 1) nx 0 0 _ _ _ rfl rfl (by
+              show EL.hrAt _ ((0 : Nat) : Int) = _
+              rw [hrAt_nat]; simp)
+          · show remaining (r' :: rest.map (·.r)) 0 0 = _
+            rw [hr0', hdn]
+            rw [hr0, hx] at hrem
+            have hc0 := cur_of_drop p.names c h.le _ hrem.symm
+            simp only [List.drop_zero, List.length_append, List.length_cons] at hc0
+            have : c = 0 := by rw [hlen, htl] at hc0; simp only [List.length_append] at hc0; omega
+            subst this
+            simp [htl]
+        · have hcond : ((((0 : Nat) : Int) = 0) ∧ ((k : Int) - 1 ≥ 0)) := by omega
+          simp only [hcond, and_self, ↓reduceIte]
+          obtain ⟨b1, b2, b3, b4⟩ := hbase ⟨((0 : Nat) : Int), (k : Int) - 1 - 1, EL.hrAt ⟨o :: rest, nh, nx, its⟩ ((0 : Nat) : Int)⟩
+          refine ⟨_, rfl, ⟨b1, b2, b3, b4, hdc, by rw [hdn]; exact hcle, 0, k - 1, ?_, ?_, by intro hf'; simp at hf'⟩⟩
+          · exact coh_mk _ (nh - 1) nx 0 (k - 1) _ _ _ rfl (by omega) (by
+              show EL.hrAt _ ((0 : Nat) : Int) = _
+              rw [hrAt_nat]; simp)
+          · show remaining (r' :: rest.map (·.r)) 0 (k - 1) = _
+            rw [hr0', hdn]
+            rw [hr0, hx] at hrem
+            have hdk : (x :: r'.hosts).drop k = r'.hosts.drop (k - 1) := by
+              have : k = (k - 1) + 1 := by omega
+              conv => lhs; rw [this]
+              rfl
+            rw [hdk] at hrem
+            exact (hkeep _ hrem.symm (by rw [htl]; simp only [List.length_append, List.length_drop]; omega)).symm
+      | succ i' =>
+        have hcond : ¬ ((((i' + 1 : Nat) : Int) = 0) ∧ ((k : Int) - 1 ≥ 0)) := by omega
+        simp only [hcond, ↓reduceIte]
+        obtain ⟨b1, b2, b3, b4⟩ := hbase ⟨((i' + 1 : Nat) : Int), (k : Int) - 1, EL.hrAt ⟨o :: rest, nh, nx, its⟩ ((i' + 1 : Nat) : Int)⟩
+        refine ⟨_, rfl, ⟨b1, b2, b3, b4, hdc, by rw [hdn]; exact hcle, i' + 1, k, ?_, ?_, by intro hf'; simp at hf'⟩⟩
+        · exact coh_mk _ (nh - 1) nx (i' + 1) k _ _ _ rfl rfl (by rw [hrAt_nat]; simp)
+        · show remaining (r' :: rest.map (·.r)) (i' + 1) k = _
+          rw [remaining_succ] at hrem ⊢
+          rw [hdn]
+          exact (hkeep _ hrem.symm (by
+            rw [htl]; simp only [List.length_append]
+            have := remaining_length_le (rest.map (·.r)) i' k
+            omega)).symm
+
 end PdshVerif.Hostlist
